@@ -91,6 +91,7 @@ def run(ctx):
     r.load_table("c17.json")
     r.rule("C17.names", "each configurable name of each emitted rule is an instance attribute set by the constructor chain")
     r.rule("C17.sections", "consumed configuration sections are emitted from the configuration itself")
+    r.rule("C17.keyorder", "the emitted file has its mapping keys sorted: no consumer of a configuration mapping depends on key order (no first-match exit from a loop over a mapping)")
     r.rule("C17.encoding", "get_configuration / configure_* are symmetric; deprecated rules not emitted")
     r.explanation = (
         "The static rule table gives, for each rule class, the `configuration` list and the instance attributes after construction; "
@@ -250,7 +251,116 @@ def run(ctx):
     r.ok("C17.sections", "per-key-guards", "%d emission statements; none can be skipped because a different section is absent" % len(stores))
 
     _encoding(r, p)
+    _keyorder(r, p)
     return r
+
+
+_CONFIG_BASES = ("dConfig", "dConfiguration", "configuration", "dStyle", "tempConfiguration", "configurationFile")
+
+
+def _key_path(e):
+    """(base text, keys) of a subscript chain; a non-constant key is '*'"""
+    keys = []
+    while isinstance(e, ast.Subscript):
+        keys.append(e.slice.value if isinstance(e.slice, ast.Constant) and isinstance(e.slice.value, str) else "*")
+        e = e.value
+    return norm(e), tuple(reversed(keys))
+
+
+def _path_match(a, b):
+    return len(a) == len(b) and all(x == y or "*" in (x, y) for x, y in zip(a, b))
+
+
+def _keyorder(r, p):
+    """json.dump(..., sort_keys=True) re-orders every mapping of the emitted configuration.  A loop over a configuration
+    mapping that can be left early (first match wins) makes behaviour depend on key order, which the emitted file
+    does not keep.  Mapping or list is decided from the writers in vsg/ (what is stored at that key path), from a
+    .keys()/.items() iterable, or from the loop variable being used as a key into the iterated expression."""
+    emit = p.function("vsg.__main__:generate_output_configuration") if "vsg.__main__:generate_output_configuration" in p.functions else None
+    sorts = any(isinstance(n, ast.keyword) and n.arg == "sort_keys" and isinstance(n.value, ast.Constant) and n.value.value is True for m in p.modules.values() if m.name == "vsg.__main__" for n in ast.walk(m.tree))
+    if not sorts:
+        r.ok("C17.keyorder", "emitter", "the emitter does not sort keys: mapping order is kept as configured")
+        return
+    # what vsg itself stores at configuration key paths
+    kind = {}
+    for fi in p.functions.values():
+        if not fi.module.name.startswith("vsg.") or fi.module.name.startswith("vsg.rules"):
+            continue
+        for n in walk_function(fi.node):
+            tgt = val = None
+            if isinstance(n, ast.Assign) and len(n.targets) == 1 and isinstance(n.targets[0], ast.Subscript):
+                tgt, val = n.targets[0], n.value
+            elif isinstance(n, ast.Call) and isinstance(n.func, ast.Attribute) and n.func.attr == "setdefault" and len(n.args) == 2 and isinstance(n.func.value, ast.Subscript):
+                tgt, val = ast.Subscript(value=n.func.value, slice=n.args[0], ctx=ast.Load()), n.args[1]
+            if tgt is None:
+                continue
+            base, keys = _key_path(tgt)
+            if len(keys) < 2 or not any(b in base for b in _CONFIG_BASES):
+                continue
+            if isinstance(val, ast.Dict) or (isinstance(val, ast.Call) and norm(val.func) == "dict"):
+                kind.setdefault(keys, set()).add("dict")
+            elif isinstance(val, (ast.List, ast.ListComp)) or (isinstance(val, ast.Call) and norm(val.func) == "list"):
+                kind.setdefault(keys, set()).add("list")
+    n_loops = n_map = 0
+    for fi in sorted(p.functions.values(), key=lambda f: f.key):
+        if not fi.module.name.startswith("vsg."):
+            continue
+        mentions = {x.id for x in ast.walk(fi.node) if isinstance(x, ast.Name)} | {x.attr for x in ast.walk(fi.node) if isinstance(x, ast.Attribute)}
+        if not any(b in m for m in mentions for b in _CONFIG_BASES):
+            continue
+        for n in walk_function(fi.node):
+            if not isinstance(n, ast.For):
+                continue
+            it = n.iter
+            is_sorted = keyed = False
+            while True:
+                if isinstance(it, ast.Call) and isinstance(it.func, ast.Name) and it.func.id in ("list", "tuple", "sorted", "enumerate") and it.args:
+                    is_sorted = is_sorted or it.func.id == "sorted"
+                    it = it.args[0]
+                elif isinstance(it, ast.Call) and isinstance(it.func, ast.Attribute) and it.func.attr in ("keys", "items", "values") and not it.args:
+                    keyed = True
+                    it = it.func.value
+                else:
+                    break
+            try:
+                full = ast.parse(expand_text(fi, it), mode="eval").body
+            except SyntaxError:
+                continue
+            base, keys = _key_path(full)
+            if not keys or not any(b in base for b in _CONFIG_BASES):
+                continue
+            n_loops += 1
+            kinds = set()
+            for k, v in kind.items():
+                if _path_match(k, keys):
+                    kinds |= v
+            tnames = {x.id for x in ast.walk(n.target) if isinstance(x, ast.Name)}
+            ittext = norm(full)
+            for x in ast.walk(n):
+                if isinstance(x, ast.Subscript) and isinstance(x.slice, ast.Name) and x.slice.id in tnames:
+                    try:
+                        if expand_text(fi, x.value) == ittext:
+                            keyed = True
+                    except Exception:
+                        pass
+            mapping = keyed or kinds == {"dict"}
+            early = [x for x in ast.walk(n) if isinstance(x, (ast.Return, ast.Break)) and x is not n]
+            kk = "%s:for-over:%s" % (fi.key, "".join("[%r]" % k for k in keys))
+            if kinds == {"list"} and not keyed:
+                r.ok("C17.keyorder", kk, "a list (stored as a list by vsg): order is part of the emitted value", sample=False)
+                continue
+            if mapping:
+                n_map += 1
+            if not early or is_sorted:
+                r.ok("C17.keyorder", kk, "no first-match exit from the loop" if not early else "iterates in sorted order", sample=False)
+            elif mapping:
+                r.fail("C17.keyorder", kk, "a loop over the configuration mapping %s is left at the first match (`%s`): which entry wins depends on the key order, and the emitted configuration is written with its keys sorted - a file whose order differs behaves differently under its own emitted configuration" % (ittext[:60], norm(early[0])[:30]), fi.loc(early[0]))
+            else:
+                r.unknown("C17.keyorder", kk, "a loop over %s with a first-match exit; whether it is a mapping (order lost on emission) or a list could not be told from the writers" % ittext[:60])
+    r.extra["configuration_loops"] = n_loops
+    r.extra["configuration_mapping_loops"] = n_map
+    if n_loops < 12 or n_map < 6:
+        raise AnalysisError("only %d loops over configuration data (%d over mappings) found" % (n_loops, n_map))
 
 
 def _parents(n, stop):
@@ -371,6 +481,11 @@ VARIANTS = [
     Variant("C17", "deprecated rules emitted", "fire",
             [("vsg/rule_list.py", "            if is_rule_deprecated(oRule):\n                continue\n            dConfiguration[oRule.unique_id]", "            dConfiguration[oRule.unique_id]")],
             rule="C17.encoding", key="deprecated"),
+    Variant("C17", "pragma kinds tried in the key order of the configured mapping", "fire",
+            [("vsg/vhdlFile/classify/pragma.py", "    if classify_open_pragmas(lObjects, dVars, configuration):\n        return True\n    if classify_close_pragmas(lObjects, dVars, configuration):\n        return True\n    if classify_single_pragmas(lObjects, dVars, configuration):\n        return True\n    return False", "    dKinds = {\"open\": classify_open_pragmas, \"close\": classify_close_pragmas, \"single\": classify_single_pragmas}\n    for sType in configuration.dConfig[\"pragma\"][\"regexp\"]:\n        if sType in dKinds and dKinds[sType](lObjects, dVars, configuration):\n            return True\n    return False")],
+            rule="C17.keyorder", key="['pragma']['regexp']"),
+    Variant("C17", "twin: pragma kinds tried in sorted key order", "silent",
+            [("vsg/vhdlFile/classify/pragma.py", "    if classify_open_pragmas(lObjects, dVars, configuration):\n        return True\n    if classify_close_pragmas(lObjects, dVars, configuration):\n        return True\n    if classify_single_pragmas(lObjects, dVars, configuration):\n        return True\n    return False", "    dKinds = {\"open\": classify_open_pragmas, \"close\": classify_close_pragmas, \"single\": classify_single_pragmas}\n    for sType in sorted(configuration.dConfig[\"pragma\"][\"regexp\"]):\n        if sType in dKinds and dKinds[sType](lObjects, dVars, configuration):\n            return True\n    return False")]),
     Variant("C17", "twin: a rule gains a properly declared option", "silent",
             [("vsg/rules/token_case.py", '        self.configuration.append("case")', '        self.configuration.append("case")\n        self.strict = False\n        self.configuration.append("strict")')]),
 ]
